@@ -87,6 +87,19 @@ macro_rules! t1_2d {
     };
 }
 
+// 3-D container types (a joint domain of three variables used as one domain)
+macro_rules! t1_3d {
+    ($V:ty, $fam:expr, $n0:expr, $n1:expr, $n2:expr, $T:ident, $I:ident, $body:expr; $( $k0:literal $k1:literal $k2:literal $A:ident $B:ident $C:ident ),* ) => {
+        match ($fam, $n0, $n1, $n2) {
+            $(
+            ("marr", $k0, $k1, $k2) => { #[allow(dead_code)] type $T = MArr3<$V, $k0, $k1, $k2>; #[allow(dead_code)] type $I = [usize; 3]; $body }
+            ("marrd", $k0, $k1, $k2) => { #[allow(dead_code)] type $T = MArrD3<$A, $B, $C, $V>; #[allow(dead_code)] type $I = (usize, usize, usize); $body }
+            )*
+            _ => Out::Bad(format!("no 3-D instantiation for family {} shape {}x{}x{}", $fam, $n0, $n1, $n2)),
+        }
+    };
+}
+
 // antecedent / consequent / table types for the conditional operators
 macro_rules! t2 {
     ($V:ty, $fam:expr, $nx:expr, $ny:expr, $T:ident, $U:ident, $C:ident, $CR:ident, $X:ident, $Y:ident, $body:expr;
@@ -221,6 +234,13 @@ macro_rules! dispatch_impl {
                         "maxu2d" => maxu::<T, I, $V>(style, x),
                         _ => umax::<T, I, $V>(style, x),
                     }; 2 3 A2 C3 NA2 NC3, 3 2 A3 C2 NA3 NC2, 2 2 A2 C2 NA2 NC2)
+                }
+                "proj3d" | "umax3d" | "fuse3d" => {
+                    t1_3d!($V, fam, d(0), d(1), d(2), T, I, match c.op {
+                        "proj3d" => proj::<T, I, $V>(style, x),
+                        "umax3d" => umax::<T, I, $V>(style, x),
+                        _ => fuse::<T, I, $V>(style, d(3), false, x),
+                    }; 2 3 4 A2 B3 C4, 3 2 2 A3 B2 C2, 2 2 3 A2 B2 C3, 2 3 2 A2 B3 C2)
                 }
                 "fuse2d" => {
                     t1_2d!($V, fam, d(0), d(1), T, I,
